@@ -313,9 +313,19 @@ func sortedKeys(m map[string]int) []string {
 	return ks
 }
 
+// stackInRepo: does the stack contain a frame of the program under test (a
+// rewritten file of the scratch copy, not a harness file)?
 func stackInRepo(stack string) bool {
 	for _, l := range strings.Split(stack, "\n") {
-		if strings.HasPrefix(l, "main.") && !strings.Contains(l, "main.(*World)") {
+		l = strings.TrimSpace(l)
+		i := strings.Index(l, ".go:")
+		if i < 0 || !strings.HasPrefix(l, "/") {
+			continue
+		}
+		path := l[:i+3]
+		slash := strings.LastIndexByte(path, '/')
+		dir, base := path[:slash], path[slash+1:]
+		if strings.HasSuffix(dir, "/src") && !strings.HasPrefix(base, "zz_") {
 			return true
 		}
 	}
